@@ -10,36 +10,53 @@ fn k(i: usize) -> u32 {
     ((((i + 1) as f64).sin().abs()) * 4294967296.0) as u32
 }
 
+fn block(st: &mut [u32; 4], kt: &[u32; 64], chunk: &[u8]) {
+    let mut w = [0u32; 16];
+    for (j, c) in chunk.chunks_exact(4).enumerate() {
+        w[j] = u32::from_le_bytes([c[0], c[1], c[2], c[3]]);
+    }
+    let (mut a, mut b, mut c, mut d) = (st[0], st[1], st[2], st[3]);
+    for i in 0..64 {
+        let (f, g) = match i / 16 {
+            0 => ((b & c) | (!b & d), i),
+            1 => ((d & b) | (!d & c), (5 * i + 1) % 16),
+            2 => (b ^ c ^ d, (3 * i + 5) % 16),
+            _ => (c ^ (b | !d), (7 * i) % 16),
+        };
+        let f2 = f.wrapping_add(a).wrapping_add(kt[i]).wrapping_add(w[g]);
+        a = d;
+        d = c;
+        c = b;
+        b = b.wrapping_add(f2.rotate_left(S[i]));
+    }
+    st[0] = st[0].wrapping_add(a);
+    st[1] = st[1].wrapping_add(b);
+    st[2] = st[2].wrapping_add(c);
+    st[3] = st[3].wrapping_add(d);
+}
+
 pub fn md5(msg: &[u8]) -> [u8; 16] {
-    let mut m = msg.to_vec();
+    let mut kt = [0u32; 64];
+    for (i, x) in kt.iter_mut().enumerate() {
+        *x = k(i);
+    }
+    let mut st = [0x67452301u32, 0xefcdab89u32, 0x98badcfeu32, 0x10325476u32];
+    let whole = msg.len() / 64 * 64;
+    for chunk in msg[..whole].chunks_exact(64) {
+        block(&mut st, &kt, chunk);
+    }
+    // padding: 0x80, zeros up to 56 mod 64, bit length
+    let mut tail = msg[whole..].to_vec();
     let bitlen = (msg.len() as u64).wrapping_mul(8);
-    m.push(0x80);
-    while m.len() % 64 != 56 {
-        m.push(0);
+    tail.push(0x80);
+    while tail.len() % 64 != 56 {
+        tail.push(0);
     }
-    m.extend_from_slice(&bitlen.to_le_bytes());
-    let (mut a0, mut b0, mut c0, mut d0) = (0x67452301u32, 0xefcdab89u32, 0x98badcfeu32, 0x10325476u32);
-    for chunk in m.chunks(64) {
-        let w: Vec<u32> = chunk.chunks(4).map(|c| u32::from_le_bytes([c[0], c[1], c[2], c[3]])).collect();
-        let (mut a, mut b, mut c, mut d) = (a0, b0, c0, d0);
-        for i in 0..64 {
-            let (f, g) = match i / 16 {
-                0 => ((b & c) | (!b & d), i),
-                1 => ((d & b) | (!d & c), (5 * i + 1) % 16),
-                2 => (b ^ c ^ d, (3 * i + 5) % 16),
-                _ => (c ^ (b | !d), (7 * i) % 16),
-            };
-            let f2 = f.wrapping_add(a).wrapping_add(k(i)).wrapping_add(w[g]);
-            a = d;
-            d = c;
-            c = b;
-            b = b.wrapping_add(f2.rotate_left(S[i]));
-        }
-        a0 = a0.wrapping_add(a);
-        b0 = b0.wrapping_add(b);
-        c0 = c0.wrapping_add(c);
-        d0 = d0.wrapping_add(d);
+    tail.extend_from_slice(&bitlen.to_le_bytes());
+    for chunk in tail.chunks_exact(64) {
+        block(&mut st, &kt, chunk);
     }
+    let (a0, b0, c0, d0) = (st[0], st[1], st[2], st[3]);
     let mut out = [0u8; 16];
     out[0..4].copy_from_slice(&a0.to_le_bytes());
     out[4..8].copy_from_slice(&b0.to_le_bytes());
